@@ -430,6 +430,11 @@ def c12_oracle(schema, cfg, processed_doc, real_errors, ignore_none=False):
                     ok, val = follow(doc, dp)
                     if ok and isinstance(val, dict):
                         sub = set_at(doc, dp, {k: k for k in val})
+                elif e.code == 0x8f:
+                    # `items` validates any iterable by position: beneath this error a mapping reads {index: key}
+                    ok, val = follow(doc, dp)
+                    if ok and isinstance(val, dict):
+                        sub = set_at(doc, dp, dict(enumerate(val)))
                 r = walk(e.child_errors, sub)
                 if r:
                     return r
